@@ -42,6 +42,8 @@ def config_strategy():
             "every_n": draw(st.sampled_from([0, 1, 3])), "every_ms": draw(st.sampled_from([0, 0, 500])),
             "max_wait_ms": draw(st.sampled_from([100, 500])),
             "ghosts": draw(st.sampled_from([0, 0, 1, 2])), "rot": draw(st.integers(0, 5)),
+            # the member under test may subscribe to fewer topics than the ghosts (the leader then has to look up topics it does not consume)
+            "my_ntopics": draw(st.integers(1, ntop)), "ghost_subs": draw(st.sampled_from(["all", "all", "mine"])),
             "initial": draw(st.integers(0, 4)),
             "procs": draw(st.lists(st.sampled_from(["sync_ok"] * 8 + ["async", "async", "sync_raise"]), max_size=10)),
         }
@@ -77,6 +79,8 @@ class GRPEngine(Engine):
         w, cl = self.world, self.cluster
         self.timeout = config["timeout_ms"] / 1000.0
         self.topics = [t["name"] for t in config["topics"]]
+        self.my_topics = self.topics[:config.get("my_ntopics", len(self.topics))]
+        self.ghost_topics = self.topics if config.get("ghost_subs", "all") == "all" else self.my_topics
         self.vno = 0
         for t in self.topics:
             for pid in sorted(cl.topics[t]):
@@ -108,16 +112,17 @@ class GRPEngine(Engine):
         self.retriable = []  # delivered retriable failures awaiting the documented follow-up (C17.4)
         self.seen_frames = set()
         self._replies_seen = 0
+        self._retr_from = 0
         self._undelivered = []
         self.proc_error_tick = None
         self.start_watch = None
         self.stop_watch = None
         for _ in range(config["ghosts"]):
-            self.g.ghost_add(config["session_ms"], self.topics)
+            self.g.ghost_add(config["session_ms"], self.ghost_topics)
         self._wrap_client()
         kw = dict(auto_commit_every_n=config["every_n"] or None, auto_commit_every_ms=config["every_ms"] or None, fetch_max_wait_time=config["max_wait_ms"],
                   request_retry_init_delay=0.1, request_retry_max_delay=1.0)
-        self.cg = ConsumerGroup(self.client, GROUP, list(self.topics), self._processor, consumer_kwargs=kw, session_timeout_ms=config["session_ms"],
+        self.cg = ConsumerGroup(self.client, GROUP, list(self.my_topics), self._processor, consumer_kwargs=kw, session_timeout_ms=config["session_ms"],
                                 heartbeat_interval_ms=config["heartbeat_ms"], initial_backoff_ms=config["initial_backoff_ms"], retry_backoff_ms=config["retry_backoff_ms"],
                                 fatal_backoff_ms=config["fatal_backoff_ms"])
         self.join_attempts = []  # virtual times at which join_and_sync() was invoked (scheduled rejoins go through the instance attribute)
@@ -233,7 +238,8 @@ class GRPEngine(Engine):
         else:
             rec["state"] = "ok"
             if rec["kind"] == "join_group" and getattr(result, "error", 0) == 0:
-                self.joininfo = {"generation": result.generation_id, "member": result.member_id, "leader": result.leader_id, "tick": self.tick}
+                self.joininfo = {"generation": result.generation_id, "member": result.member_id, "leader": result.leader_id, "tick": self.tick,
+                                 "members": [(m.member_id, m.member_metadata) for m in (result.members or [])]}
                 if result.leader_id == result.member_id:
                     self.labels.add("afkak-member-is-leader")
                 else:
@@ -361,6 +367,8 @@ class GRPEngine(Engine):
                 self.note("C16.after-stop", "C16.group-request-after-stop", "%s written after the Deferred returned by stop() had fired" % api)
             elif self.stop_called_tick is not None and not resend:
                 self.labels.add("new-%s-between-stop-call-and-completion" % api)
+        if api == "sync_group" and not resend and req["assignments"]:
+            self._check_leader_assignment(req)
         if api == "join_group" and not resend:
             era = self.eras[-1] if self.eras else None
             if not self.joining:
@@ -403,6 +411,55 @@ class GRPEngine(Engine):
                         req["generation"], req["member_id"], ji.get("generation"), ji.get("member")))
                 else:
                     self.labels.add("commit-with-current-identity")
+
+    def _check_leader_assignment(self, req):
+        """C15 through the leader path of the real Coordinator: the assignment this member sends as leader, against the member list the
+        coordinator model handed it (subscriptions parsed independently) and the cluster's partitions"""
+        ji = self.joininfo or {}
+        if ji.get("generation") != req["generation"] or ji.get("leader") != ji.get("member"):
+            return
+        subs = {}
+        for mid, meta in ji.get("members", []):
+            try:
+                subs[mid] = set(rp.parse_subscription(meta)["topics"])
+            except rp.GrammarError:
+                return
+        got = {}
+        for a in req["assignments"]:
+            try:
+                parsed = rp.parse_assignment(a["assignment"])["assignment"]
+            except rp.GrammarError as e:
+                self.note("C15.decodable", "C15.leader-path/assignment-unparsable", "assignment sent for %r does not parse: %s" % (a["member_id"], e))
+                return
+            got[a["member_id"]] = set((t, p) for t, ps in parsed for p in ps)
+            if sum(len(ps) for _, ps in parsed) != len(got[a["member_id"]]):
+                self.note("C15.exactly-one-owner", "C15.leader-path/partition-listed-twice", "member %r is given a partition twice: %r" % (a["member_id"], parsed))
+        self.nt.add("leader-assignment-checked")
+        if len(set(frozenset(x) for x in subs.values())) > 1:
+            self.nt.add("leader-assignment-with-differing-subscriptions")
+        if set(got) != set(subs):
+            self.note("C15.every-member", "C15.leader-path/member-set-differs", "the leader's SyncGroup lists members %r; the JoinGroup reply it was given lists %r" % (sorted(got), sorted(subs)))
+            return
+        wanted = set((t, p) for t in set().union(*subs.values()) if t in self.cluster.topics for p in self.cluster.topics[t])
+        owners = {}
+        for mid, tps in got.items():
+            for tp in tps:
+                owners.setdefault(tp, []).append(mid)
+                if tp[0] not in subs[mid]:
+                    self.note("C15.only-subscribers", "C15.leader-path/assigned-to-non-subscriber", "%s-%d assigned to %r which subscribes to %r" % (tp[0], tp[1], mid, sorted(subs[mid])))
+        dup = sorted(tp for tp, o in owners.items() if len(o) > 1)
+        missing = sorted(wanted - set(owners))
+        extra = sorted(set(owners) - wanted)
+        if dup:
+            self.note("C15.exactly-one-owner", "C15.leader-path/partition-with-two-owners", "partitions %r have more than one owner: %r" % (dup[:4], [owners[x] for x in dup[:4]]))
+        if missing:
+            self.note("C15.exactly-one-owner", "C15.leader-path/partition-without-owner", "partitions %r of subscribed topics have no owner (assignment %r)" % (missing[:6], dict((k, sorted(v)) for k, v in got.items())))
+        if extra:
+            self.note("C15.exactly-one-owner", "C15.leader-path/unknown-partition-assigned", "partitions %r are not partitions of a subscribed topic" % (extra[:6],))
+        if len(set(frozenset(x) for x in subs.values())) == 1 and got:
+            sizes = [len(v) for v in got.values()]
+            if max(sizes) - min(sizes) > 1:
+                self.note("C15.balanced", "C15.leader-path/unbalanced", "identical subscriptions but assignment sizes %r" % (sorted(sizes),))
 
     def _first_fetch(self, era, tp, offset, rec):
         if tp in era["first_fetch"] or tp not in era["assignment"]:
@@ -587,7 +644,7 @@ class GRPEngine(Engine):
             self._append(t, pid, step[3])
         elif op == "ghost_add":
             if len(self.g.ghosts()) < 3:
-                self.g.ghost_add(self.config["session_ms"], self.topics, lazy=bool(step[1]))
+                self.g.ghost_add(self.config["session_ms"], self.ghost_topics, lazy=bool(step[1]))
                 self.labels.add("ghost-joined" + ("-lazy" if step[1] else ""))
                 self.evseq += 1
                 self._after_event()
@@ -739,18 +796,21 @@ class GRPEngine(Engine):
         """C17 (4): after a delivered retriable failure of a group request the member attempts the rejoin no later than the documented
         backoff for its class (observed: invocation of the public join_and_sync(), which every scheduled rejoin goes through)."""
         w = self.world
-        for r in self.retriable:
+        while self._retr_from < len(self.retriable) and self.retriable[self._retr_from]["checked"]:
+            self._retr_from += 1
+        for idx in range(self._retr_from, len(self.retriable)):
+            r = self.retriable[idx]
             if r["checked"]:
                 continue
             if self.stop_called_tick is not None or (self.started and self.start_watch.state != "pending") or any(i.state == "failed" for i in self.invocations):
                 # stopped by the application, or stopping itself after a non-Kafka error: the scheduled rejoin is rightly cancelled
                 r["checked"] = True
                 continue
-            later = [t for (tk, t) in self.join_attempts if tk > r["tick"]]
+            later = [t for (tk, t) in self.join_attempts[-40:] if tk > r["tick"]]
             # an earlier failure whose (longer) backoff is still running keeps its schedule: the later one does not shorten it
             deadline = r["time"] + r["delay"]
-            for x in self.retriable:
-                if x["tick"] < r["tick"] and not any(x["tick"] < tk < r["tick"] for (tk, _) in self.join_attempts):
+            for x in self.retriable[max(0, idx - 8):idx]:
+                if x["tick"] < r["tick"] and not any(x["tick"] < tk < r["tick"] for (tk, _) in self.join_attempts[-40:]):
                     deadline = max(deadline, x["time"] + x["delay"])
             r["delay"] = deadline - r["time"]
             if later:
@@ -778,6 +838,11 @@ class GRPEngine(Engine):
             return  # waiting for the application's processor
         if self.cluster.held:
             return
+        joins = [c for c in self.calls if c["kind"] == "join_group" and c["state"] == "ok" and getattr(c["result"], "leader_id", None) == getattr(c["result"], "member_id", 0)]
+        if joins and not [c for c in self.calls if c["tick"] > joins[-1]["done_tick"] and c["kind"] in ("sync_group", "join_group")]:
+            jc = joins[-1]
+            self.note("C15.every-member", "C15.leader-path/leader-never-sent-assignment", "this member was elected leader of generation %r (%d members) at t=%.3f; it has not sent a SyncGroup with the assignment and nothing is outstanding any more (t=%.3f)" % (
+                jc["result"].generation_id, len(getattr(jc["result"], "members", [])), jc["done_time"], w.now))
         self.note("C17.never-idle", "C17.wedged-nothing-outstanding", "the member is started, not stopped and its start() Deferred has not fired, yet no request, connection attempt or delayed call of the client is outstanding (t=%.3f): nothing can ever happen again" % w.now)
 
     # ------------------------------------------------------------------ quiet phase
@@ -890,6 +955,14 @@ class GRPEngine(Engine):
                 self.note("C17.non-kafka-error-surfaces", "C17.processor-error-reported-differently", "the processor failed with ValueError; the Deferred returned by start() fired with %s %.100r" % (self.start_watch.state, self.start_watch.value))
             else:
                 self.nt.add("non-kafka-error-surfaced")
+        # C15 leader path: every join this member won as leader is followed by its SyncGroup (carrying the assignment) or by another attempt
+        if self.started and self.stop_called_tick is None and self.start_watch.state == "pending" and not any(i.state == "failed" for i in self.invocations) and not self.cluster.held:
+            joins = [c for c in self.calls if c["kind"] == "join_group" and c["state"] == "ok" and getattr(c["result"], "leader_id", None) == getattr(c["result"], "member_id", 0)]
+            for jc in joins:
+                after = [c for c in self.calls if c["tick"] > jc["done_tick"] and c["kind"] in ("sync_group", "join_group")]
+                if not after and "inconclusive-event-cap" not in self.labels:
+                    self.note("C15.every-member", "C15.leader-path/leader-never-sent-assignment", "this member was elected leader of generation %r (%d members) at t=%.3f but, %.0f virtual seconds after all faults ceased, has neither sent a SyncGroup with the assignment nor tried again" % (
+                        jc["result"].generation_id, len(getattr(jc["result"], "members", [])), jc["done_time"], self.world.now - jc["done_time"]))
         # stop and make sure nothing remains
         if self.started and self.stop_called_tick is None and self.start_watch.state == "pending":
             self._stop()
